@@ -240,6 +240,8 @@ class Ctx:
         if not m:
             raise Inconclusive("trace validation produced no verdict:\n" + out[-5000:])
         ln, reached, bad = int(m.group(1)), int(m.group(2)), int(m.group(3))
+        mf = re.search(r'"TRACE-FAILS", <<([^>]*)>>', out)
+        self.last_fails = [int(x) for x in mf.group(1).replace(" ", "").split(",") if x] if mf else ([bad] if bad else [])
         self.cov["states"] += res["distinct"]
         self.cov["transitions"] += res["generated"]
         accepted = (bad == 0 and reached == ln)
